@@ -16,6 +16,9 @@ A pipeline is a list of element specs (JSON-able):
     ["acc", name]    a user fill/compute accumulator          xs -> [list(xs)]     (one value)
     ["mut", name]    a user callable that appends its name to context["seen"] of the value in place
     ["cache", name]  lena.flow.Cache(name + ".pkl")           xs -> xs
+                     (name may be a template, "{{cn}}", that the static context fills in)
+    ["setctx", key, value]  lena.meta.SetContext(key, value): an element without data, it only sets
+                     the static context of its sequence       xs -> xs
     ["raise", k]     (only as the last element of one run) a callable that returns its argument and
                      raises Boom on its call number k
 
@@ -37,6 +40,14 @@ no previous processing will occur"), else by the source. Served by a cache: the 
 the elements behind that cache make of the stored values, the source is not pulled and no element before
 that cache is called. Served by the source: the output is what the elements make of the source's values
 (cache = identity).
+
+A SUSPENDED run is a run whose consumer stopped after k >= 1 values and kept the generator. When it is
+RESUMED after other runs and consumed to its end, it is still the run it was when it started: all it
+yields, before and after the pause, is exactly the complete output of a run served as it was served
+when it started (by the stored flow of that moment, upstream untouched; or by its own source) - or, the
+other reading of "the stored values", the complete output of a replay of what that cache holds at the
+moment of resumption. Nothing else: no mixture of two stored flows, no exception. A cache it was
+writing holds, once its flow is exhausted, that flow or what another run has stored there meanwhile.
 """
 
 import copy  # noqa: E402
@@ -83,7 +94,7 @@ def apply_spec(spec, xs):
         return out
     if t == "acc":
         return [list(xs)]
-    if t in ("cache", "raise"):
+    if t in ("cache", "raise", "setctx"):
         return list(xs)
     raise ValueError(spec)
 
@@ -121,6 +132,12 @@ def drop_set(run, ncaches):
     return set(range(ncaches)) if w == "all" else {w}
 
 
+def suspends(run, obs):
+    """The run leaves a started, unfinished generator behind that can be resumed later."""
+    return (run["kind"] == "stop" and not run.get("close", True) and run["k"] > 0
+            and obs["outcome"] == "ok")
+
+
 class Model(object):
     """Allowed cache states of one pipeline shape along one history."""
 
@@ -134,16 +151,25 @@ class Model(object):
         self.allowed = {canon((None,) * nc): (None,) * nc}
         # (interruption kind, run index, {cache index: complete flow it was writing}) newest first
         self.interrupted = []
+        # run index -> (run, expectations the run agreed with when it was suspended)
+        self.suspended = {}
 
     def copy(self):
         m = Model.__new__(Model)
         m.__dict__.update(self.__dict__)
         m.allowed = dict(self.allowed)
         m.interrupted = list(self.interrupted)
+        m.suspended = dict(self.suspended)
         return m
 
     def key(self):
-        return tuple(sorted(self.allowed))
+        waiting = tuple((r, tuple(sorted(set((repr(e["active"]), canon(e["full"])) for e in exps))))
+                        for r, (_, exps) in sorted(self.suspended.items()))
+        return tuple(sorted(self.allowed)), waiting
+
+    def released(self):
+        """The suspended runs were closed: none of them can be resumed."""
+        self.suspended = {}
 
     # ---------------------------------------------------------------------------------------------
     def source_len(self, run):
@@ -269,11 +295,13 @@ class Model(object):
         new = {}
         interrupted_writing = None
         exps = []
+        agreed = []
         for s in cur.values():
             exp = self.expect(s, run, r)
             exps.append((s, exp))
             if not self.matches(exp, run, obs):
                 continue
+            agreed.append(exp)
             states, writing, clean = self.successors(s, exp, run, obs)
             for st in states:
                 new[canon(st)] = st
@@ -286,8 +314,73 @@ class Model(object):
                 if kind == "stop":
                     kind = "stop-close" if run.get("close", True) else "stop-abandon"
                 self.interrupted.insert(0, (kind, r, interrupted_writing))
+            if suspends(run, obs):
+                self.suspended[r] = (dict(run), agreed)
             return None
         return self.diagnose(before, cur, exps, run, r, obs)
+
+    # ---------------------------------------------------------------------------------------------
+    def step_resume(self, r0, obs):
+        """Judge the suspended run number r0, resumed now and consumed to its end; *obs* is the whole
+        run (the values received before and after the pause, the pulls and calls of both parts).
+        Returns None or a violation like step()."""
+        run0, exps0 = self.suspended.pop(r0)
+        whole = dict(run0)
+        whole["kind"] = "complete"
+        cands = list(exps0)
+        for s in self.allowed.values():
+            # the other reading: a replay of what the cache holds now
+            e = self.expect(s, whole, r0)
+            if e["active"] is not None:
+                cands.append(e)
+        new = {}
+        for e in cands:
+            if obs["outcome"] != "ok" or canon(obs["out"]) != canon(e["full"]):
+                continue
+            if e["active"] is not None and self.touched(e, obs):
+                continue
+            for s in self.allowed.values():
+                for st in self.after_completion(s, e):
+                    new[canon(st)] = st
+        if new:
+            self.allowed = new
+            return None
+        expected = [{"served_by": ("source" if e["active"] is None else "cache %d" % e["active"]),
+                     "values": canon(e["full"]), "outcome": ["ok"],
+                     "upstream": "untouched" if e["active"] is not None else "free"}
+                    for e in cands]
+        served = sorted(set("source" if e["active"] is None else "cache" for e in exps0))
+        symptom = obs["outcome"]
+        if symptom == "ok":
+            symptom = "wrong values"
+            for e in cands:
+                if e["active"] is not None and canon(obs["out"]) == canon(e["full"]):
+                    symptom = "upstream touched: " + "+".join(self.touched(e, obs))
+        return {"cause": {"law": "resumed-run-yields-exactly-its-flow", "served_by": "/".join(served),
+                          "symptom": symptom},
+                "expected": expected,
+                "note": "run %d was suspended after %d values and resumed after the later runs"
+                        % (r0, run0["k"])}
+
+    def after_completion(self, s, e):
+        """States allowed once a resumed run with expectation e has come to its end in state s."""
+        act = e["active"]
+        pipeline = e["pipeline"]
+        options = []
+        for c, v in enumerate(s):
+            if act is not None and c <= act:
+                options.append([v])
+                continue
+            start = 0 if act is None else e["pos"] + 1
+            full_c = apply_all(pipeline[start:self.cpos[c]], e["feed"])
+            opts = [full_c, v]
+            if any(sp[0] == "slice" for sp in pipeline[self.cpos[c] + 1:]):
+                opts.append(None)       # its flow was not exhausted
+            options.append(opts)
+        states = [()]
+        for opts in options:
+            states = [st + (o,) for st in states for o in opts]
+        return states
 
     # ---------------------------------------------------------------------------------------------
     def diagnose(self, before, cur, exps, run, r, obs):
